@@ -5178,3 +5178,75 @@ let needs_inode = function
 let nospace_plausible c free_blocks free_inodes =
   (||) (N.ltb free_blocks (need_blocks c))
     ((&&) (needs_inode c) (N.eqb free_inodes N0))
+
+(** val lOGSZ : n **)
+
+let lOGSZ =
+  Npos (XI (XI (XI (XI (XI (XI (XI (XI XH))))))))
+
+(** val lOGSTART : n **)
+
+let lOGSTART =
+  Npos (XO XH)
+
+type log_hdr = { lh_start : n; lh_end : n; lh_addrs : n list }
+
+(** val read_hdr : disk -> log_hdr **)
+
+let read_hdr d =
+  let h1 = rd d N0 in
+  { lh_start = (get64 (rd d (Npos XH)) N0); lh_end = (get64 h1 N0);
+  lh_addrs =
+  (words (S (S (S (S (S (S (S (S (S (S (S (S (S (S (S (S (S (S (S (S (S (S (S
+    (S (S (S (S (S (S (S (S (S (S (S (S (S (S (S (S (S (S (S (S (S (S (S (S
+    (S (S (S (S (S (S (S (S (S (S (S (S (S (S (S (S (S (S (S (S (S (S (S (S
+    (S (S (S (S (S (S (S (S (S (S (S (S (S (S (S (S (S (S (S (S (S (S (S (S
+    (S (S (S (S (S (S (S (S (S (S (S (S (S (S (S (S (S (S (S (S (S (S (S (S
+    (S (S (S (S (S (S (S (S (S (S (S (S (S (S (S (S (S (S (S (S (S (S (S (S
+    (S (S (S (S (S (S (S (S (S (S (S (S (S (S (S (S (S (S (S (S (S (S (S (S
+    (S (S (S (S (S (S (S (S (S (S (S (S (S (S (S (S (S (S (S (S (S (S (S (S
+    (S (S (S (S (S (S (S (S (S (S (S (S (S (S (S (S (S (S (S (S (S (S (S (S
+    (S (S (S (S (S (S (S (S (S (S (S (S (S (S (S (S (S (S (S (S (S (S (S (S
+    (S (S (S (S (S (S (S (S (S (S (S (S (S (S (S (S (S (S (S (S (S (S (S (S
+    (S (S (S (S (S (S (S (S (S (S (S (S (S (S (S (S (S (S (S (S (S (S (S (S
+    (S (S (S (S (S (S (S (S (S (S (S (S (S (S (S (S (S (S (S (S (S (S (S (S
+    (S (S (S (S (S (S (S (S (S (S (S (S (S (S (S (S (S (S (S (S (S (S (S (S
+    (S (S (S (S (S (S (S (S (S (S (S (S (S (S (S (S (S (S (S (S (S (S (S (S
+    (S (S (S (S (S (S (S (S (S (S (S (S (S (S (S (S (S (S (S (S (S (S (S (S
+    (S (S (S (S (S (S (S (S (S (S (S (S (S (S (S (S (S (S (S (S (S (S (S (S
+    (S (S (S (S (S (S (S (S (S (S (S (S (S (S (S (S (S (S (S (S (S (S (S (S
+    (S (S (S (S (S (S (S (S (S (S (S (S (S (S (S (S (S (S (S (S (S (S (S (S
+    (S (S (S (S (S (S (S (S (S (S (S (S (S (S (S (S (S (S (S (S (S (S (S (S
+    (S (S (S (S (S (S (S (S (S (S (S (S (S (S (S (S (S (S (S (S (S (S (S (S
+    (S (S (S (S (S (S (S (S
+    O)))))))))))))))))))))))))))))))))))))))))))))))))))))))))))))))))))))))))))))))))))))))))))))))))))))))))))))))))))))))))))))))))))))))))))))))))))))))))))))))))))))))))))))))))))))))))))))))))))))))))))))))))))))))))))))))))))))))))))))))))))))))))))))))))))))))))))))))))))))))))))))))))))))))))))))))))))))))))))))))))))))))))))))))))))))))))))))))))))))))))))))))))))))))))))))))))))))))))))))))))))))))))))))))))))))))))))))))))))))))))))))))))))))))))))))))))))))))))))))))))))))))))))))))))))))))))))))))
+    (skipn (S (S (S (S (S (S (S (S O)))))))) h1)) }
+
+(** val positions : nat -> n -> n list **)
+
+let rec positions n0 start =
+  match n0 with
+  | O -> []
+  | S n1 -> start :: (positions n1 (N.add start (Npos XH)))
+
+(** val recover_log : disk -> disk option **)
+
+let recover_log d =
+  let h = read_hdr d in
+  if (||) (N.ltb h.lh_end h.lh_start)
+       (N.ltb lOGSZ (N.sub h.lh_end h.lh_start))
+  then None
+  else Some
+         (fold_left (fun acc pos ->
+           let slot = N.modulo pos lOGSZ in
+           disk_set acc (nth (N.to_nat slot) h.lh_addrs N0)
+             (rd d (N.add lOGSTART slot)))
+           (positions (N.to_nat (N.sub h.lh_end h.lh_start)) h.lh_start) d)
+
+(** val fs_part : disk -> (n * bytes) list **)
+
+let fs_part d =
+  filter0 (fun _ -> list_filter) (fun x ->
+    is_true_dec
+      (N.leb (Npos (XI (XO (XO (XO (XO (XO (XO (XO (XO XH)))))))))) (fst x)))
+    (map_to_list (gmap_to_list n_eq_dec n_countable) d)
